@@ -4,6 +4,7 @@
 package main
 
 import (
+	"encoding/json"
 	"flag"
 	"fmt"
 	"os"
@@ -13,6 +14,7 @@ import (
 
 	"github.com/openconfig/goyang/pkg/zzsim"
 	"github.com/openconfig/goyang/zzverif/core"
+	"github.com/openconfig/goyang/zzverif/tape"
 	_ "github.com/openconfig/goyang/zzverif/props"
 )
 
@@ -116,6 +118,35 @@ func main() {
 		fs.StringVar(&o.RaceExe, "race", "", "")
 		fs.Parse(os.Args[3:])
 		os.Exit(core.ReplayFile(os.Args[2], o))
+	case "show":
+		if len(os.Args) < 3 {
+			usage()
+		}
+		d := core.Lookup(os.Args[2])
+		if d == nil {
+			fmt.Fprintln(os.Stderr, "unknown property", os.Args[2])
+			os.Exit(2)
+		}
+		fs := flag.NewFlagSet("show", flag.ExitOnError)
+		tier := fs.String("tier", "quick", "")
+		seed := fs.String("seed", "1", "")
+		run := fs.Int("run", 0, "")
+		exec := fs.Bool("exec", false, "")
+		fs.Parse(os.Args[3:])
+		c := d.Generate(tape.New(core.RunSeed(parseSeed(*seed), d.ID(), *run)), *tier)
+		if f, ok := d.(interface{ Finalize(core.Case) }); ok {
+			f.Finalize(c)
+		}
+		if ds, ok := d.(interface{ Describe(core.Case) string }); ok {
+			fmt.Println(ds.Describe(c))
+		} else {
+			fmt.Println(string(core.MarshalCase(c)))
+		}
+		if *exec {
+			oc := core.SafeRun(d, c)
+			b, _ := json.MarshalIndent(oc, "", " ")
+			fmt.Println(string(b))
+		}
 	case "sites":
 		for _, s := range zzsim.Sites {
 			if s.Kind == "func" || s.Kind == "loop" {
